@@ -30,7 +30,7 @@ claim('C13', 'model_checking',
 FACTORY = 'pyv.checks.c13:Session'
 SLOTS = {'U1': 1000, 'U2': 1000, 'U3': 1000, 'V1': 65534}
 NAMES = [b'com.example.N1', b'com.example.N2', b'com.example.N3']
-RULES = [b"type='signal',member='R1'", b"type='signal',member='R2'", b"type='signal',member='R3'"]
+RULES = [b"type='signal',member='R1'", b"type='signal',member='R2'", b"type='signal',member='NameOwnerChanged'"]
 LIM = {'max_incomplete_connections': 2, 'max_completed_connections': 3, 'max_connections_per_user': 2,
        'max_names_per_connection': 3, 'max_match_rules_per_connection': 2, 'max_message_size': 4096, 'auth_timeout': 30000,
        'max_replies_per_connection': 2,
@@ -353,6 +353,8 @@ class Session(BusSession):
                     out.append(Violation('limit-exceeded', 'max_replies_per_connection', '%s: %s already has %d unanswered calls; the call was %s, errors %r' % (desc, l, mine, 'delivered' if got_call else 'not delivered', errs), None))
                 elif self.impl_key() != before:
                     out.append(Violation('refusal-changed-state', 'max_replies_per_connection', '%s: refused call changed the state' % desc, None))
+                else:
+                    self.silent(out, desc, 'max_replies_per_connection', l, ser)
             else:
                 self.hit('call-ok')
                 if len(got_call) != 1 or errs:
@@ -386,6 +388,7 @@ class Session(BusSession):
                         self.hit('req-over-limit')
                         if self.impl_key() != before:
                             out.append(Violation('refusal-changed-state', 'max_names_per_connection', '%s: refused RequestName changed the state' % desc, None))
+                        self.silent(out, desc, 'max_names_per_connection')
                 else:
                     code, _ = self.reg.request(l, n, op[3])
                     self.hit('req-ok')
@@ -410,6 +413,8 @@ class Session(BusSession):
                         out.append(Violation('limit-exceeded', 'max_match_rules_per_connection', '%s: AddMatch answered %r with %d rules held' % (desc, rep, sum(self.rules[l].values())), None))
                     elif self.impl_key() != before:
                         out.append(Violation('refusal-changed-state', 'max_match_rules_per_connection', '%s: refused AddMatch changed the state' % desc, None))
+                    else:
+                        self.silent(out, desc, 'max_match_rules_per_connection')
                 else:
                     self.hit('add-ok')
                     if rep is None or rep.kind != R.MT_RETURN:
@@ -460,6 +465,15 @@ class Session(BusSession):
         if not out:
             self.invariants(out, desc)
         return out
+
+    def silent(self, out, desc, which, requester=None, serial=None):
+        """A refused request "changes nothing": apart from the one error to the requester nobody hears anything of it -
+        no NameAcquired / NameOwnerChanged for a name that was not acquired, no copy of a call that was not delivered."""
+        for x in list(self.inbox):
+            left = [o for o in self.inbox[x] if not (x == requester and o.kind == R.MT_ERROR and o.rserial == serial)]
+            if left:
+                out.append(Violation('refusal-visible', which, '%s: the request was refused with LimitsExceeded, yet %s received %r' % (desc, x, left[:2]), None))
+                return
 
     def invariants(self, out, desc):
         d = self.impl_key()
